@@ -15,7 +15,8 @@ Record readobs := mkReadObs {
 Inductive case :=
 | CCreate (old new : list row)                      (* features of the old database / of the new input *)
           (force : bool)
-          (old_tables : result tables)              (* the old database as created *)
+          (emptied : bool)                          (* every feature of the old database was deleted again (FeatureDB.delete) before the second call *)
+          (old_tables : result tables)              (* the old database as created (and emptied) *)
           (outcome : result unit)                   (* create_db(new, same path, force) *)
           (after : result tables)                   (* content of the path afterwards *)
           (bytes_same : bool)                       (* file bytes unchanged by the second create_db *)
@@ -31,7 +32,7 @@ Definition is_read (s : stmt) : bool := match s with StWrite _ => false | _ => t
 
 Definition verdict (c : case) : Z :=
   match c with
-  | CCreate old new force old_tables outcome after bytes_same =>
+  | CCreate old new force emptied old_tables outcome after bytes_same =>
     match old, new with
     | [], _ | _, [] => V_OUT
     | _, _ =>
@@ -39,7 +40,10 @@ Definition verdict (c : case) : Z :=
       let imp_new := import_gff call_table SCreateUnique [] (SList [KAttr IDK]) new empty_st in
       match imp_old with
       | Err _ => V_OUT
-      | Ok d_old =>
+      | Ok d_old0 =>
+        (* delete() of every key removes all rows and all relations (each relation's child is a stored feature); the file, its
+           schema, directives, dialect and counters stay - it is still a database and create_db must still refuse it *)
+        let d_old := if emptied then mkSt [] [] (s_dups d_old0) (s_auto d_old0) else d_old0 in
         if negb (res_matches false (Ok d_old) old_tables) then V_BAD else
         let '(fs', out) := create_db_fs [(P, d_old)] P force imp_new in
         let out_ok := match out, outcome with Ok _, Ok _ => true | Err _, Err _ => true | _, _ => false end in
